@@ -373,6 +373,7 @@ func run(t0 time.Time) int {
 		fmt.Println("UNDECIDED property=" + prop + " reason=load: " + err.Error())
 		return 2
 	}
+	loadBaselineLocals(*flagVerif)
 	if err := loadSpecs(g, *flagRepo, *flagVerif); err != nil {
 		fmt.Println("UNDECIDED property=" + prop + " reason=spec: " + err.Error())
 		return 2
@@ -678,6 +679,11 @@ func run(t0 time.Time) int {
 	}
 	if *flagBase && prop != "" {
 		writeBaseline(*flagVerif, prop, jobsObls(jobs))
+		var ks []string
+		for _, r := range results {
+			ks = append(ks, r.Key)
+		}
+		writeBaselineLocals(*flagVerif, g, ks)
 	}
 	if prop != "" && !*flagNoEvid {
 		writeEvidence(g, prop, results, jobsObls(jobs), nObl, nDis, knownHits, violations, undecided, bySolver, solverSecs, vacChecks, vacOK, wall)
@@ -913,6 +919,28 @@ func writeEvidence(g *G, prop string, results []*FuncResult, obls []*Obl, nObl, 
 var propAssumptions = map[string][]string{}
 
 var _ = token.NoPos
+
+// baseline of local variable names per function under contract (for rename tolerance, see renamedLocal)
+func loadBaselineLocals(verif string) {
+	if b, err := os.ReadFile(filepath.Join(verif, "baseline_locals.json")); err == nil {
+		json.Unmarshal(b, &baselineLocals)
+	}
+}
+
+func writeBaselineLocals(verif string, g *G, keys []string) {
+	path := filepath.Join(verif, "baseline_locals.json")
+	raw := map[string][]string{}
+	if b, err := os.ReadFile(path); err == nil {
+		json.Unmarshal(b, &raw)
+	}
+	for _, k := range keys {
+		if fn := g.fnByKey[k]; fn != nil {
+			raw[k] = localNameOrder(fn)
+		}
+	}
+	b, _ := json.MarshalIndent(raw, "", " ")
+	os.WriteFile(path, b, 0644)
+}
 
 func writeBaseline(verif, prop string, obls []*Obl) {
 	path := filepath.Join(verif, "baseline_obligations.json")
